@@ -117,3 +117,10 @@ def opt_min(a, b):
 def ep_ts(e):
     """the timestamp string the index parses for an episode: e.get("ts") or "" """
     return ite("ts" in e and len(e["ts"]) > 0, e["ts"], "")
+
+
+@spec
+def hint_thr(h):
+    """similarity threshold read from the search hints: missing or None means 0.0"""
+    t = h.get("sim_threshold", 0.0)
+    return ite(is_none(t), 0.0, some(t))
